@@ -152,11 +152,51 @@ def opCrypt (st : DriverState) (entry id phrase setting : String) (size : Option
       else (st, "bad-op")
   | _, _, _ => (st, "bad-op")
 
+/-- streaming digest through the C-shaped context, chunk by chunk -/
+def opHash (alg : String) (chunks : List String) : String :=
+  match chunks.mapM (fun c => (argBytes c).bind id) with
+  | none => "bad-op"
+  | some cs =>
+    let run {σ} (A : MD.Alg σ) := MD.final A (cs.foldl (MD.update A) (MD.init A))
+    let d : Option Bytes :=
+      if alg == "md4" then some (run Md4.alg) else if alg == "md5" then some (run Md5.alg)
+      else if alg == "sha1" then some (run Sha1.alg) else if alg == "sha256" then some (run Sha256.alg)
+      else if alg == "sha512" then some (run Sha512.alg)
+      else if alg == "gost256" then some (Streebog.hash256 (cs.flatMap id))
+      else none
+    match d with
+    | some d => s!"d={showBytes d} ctxzero=1"
+    | none => "d=unmodelled ctxzero=1"
+
+def opHmac (alg k t : String) : String :=
+  match (argBytes k).bind id, (argBytes t).bind id with
+  | some k, some t =>
+    if alg == "sha1" then s!"d={showBytes (Cores.hmacSha1 k t)}"
+    else if alg == "sha256" then s!"d={showBytes (Yes.hmacSha256 k t)}"
+    else if alg == "gost256" then (if k.length < 32 || k.length > 64 then "d=precondition" else s!"d={showBytes (Streebog.hmac256 k t)}")
+    else "bad-op"
+  | _, _ => "bad-op"
+
+def opPbkdf2 (p s c dk : String) : String :=
+  match (argBytes p).bind id, (argBytes s).bind id, c.toNat?, dk.toNat? with
+  | some p, some s, some c, some dk => s!"d={showBytes (Yes.pbkdf2Sha256 p s c dk)}"
+  | _, _, _, _ => "bad-op"
+
+def opDesBlock (k salt count b dec : String) : String :=
+  match (argBytes k).bind id, salt.toNat?, count.toNat?, (argBytes b).bind id, dec.toNat? with
+  | some k, some salt, some count, some b, some dec =>
+    s!"d={showBytes (Des.cryptBlock (Des.mkCtx k salt) b count (dec != 0))}"
+  | _, _, _, _, _ => "bad-op"
+
 def stepOp (st : DriverState) (toks : List String) : DriverState × String :=
   match toks with
   | ["G", entry, pfx, count, rb, nrb, osz] => (st, opGensalt st entry pfx count rb nrb osz)
   | ["K", s] => (st, opChecksalt s)
   | ["KE", s] => (st, opChecksaltEnum s)
+  | "H" :: alg :: _ :: chunks => (st, opHash alg chunks)
+  | ["HM", alg, k, t] => (st, opHmac alg k t)
+  | ["PB", p, s, c, dk] => (st, opPbkdf2 p s c dk)
+  | ["DB", k, salt, count, b, dec] => (st, opDesBlock k salt count b dec)
   | "O" :: id :: fill :: _ => opObj st id fill
   | "CC" :: _ :: _ :: p :: s :: _ =>
     (match argBytes p, argBytes s with
